@@ -350,7 +350,7 @@ def run(ctx, col: Collector):
         ok, why = indentation_remover(ri, idx)
         if ok:
             col.ok('C13-normalise', 'remove_indentation:shape', 'the indentation common to the non-blank lines is cut from every line', node=ri.node, file=ri.file)
-        elif why.startswith(('lines are measured under', 'indentation is measured', 'lines are split on')):
+        elif why.startswith(('lines are measured', 'indentation is measured', 'lines are split on')):
             col.bad('C13-normalise', 'remove_indentation:shape', f'remove_indentation: {why}', node=ri.node, file=ri.file)
         else:
             col.unk('C13-normalise', 'remove_indentation:shape', f'remove_indentation is not read ({why})', node=ri.node, file=ri.file)
@@ -495,6 +495,21 @@ def indentation_remover(ri: FuncInfo, idx=None) -> Tuple[bool, str]:
     joins = [n for n in ast.walk(fn) if isinstance(n, ast.Call) and isinstance(n.func, ast.Attribute) and n.func.attr == 'join' and isinstance(n.func.value, ast.Constant)]
     if not joins or (sep is not None and joins[-1].func.value.value != sep):
         return False, f'lines are split on {sep!r} but joined with {joins[-1].func.value.value!r}' if joins else 'lines are not joined back'
+    # EVERY return hands back either the untouched input or the lines all cut by the same amount: a return that treats some lines differently (keeps the
+    # first line, cuts the rest by another amount) makes the result depend on layout and breaks idempotence
+    cut_ids = {id(c) for c in cut}
+    cut_vars = {norm(n.targets[0]) for n in walk_no_nested(fn) if isinstance(n, ast.Assign) and id(n.value) in cut_ids}
+    for r in [n for n in walk_no_nested(fn) if isinstance(n, ast.Return) and n.value is not None]:
+        v = r.value
+        if norm(v) == src:
+            continue
+        if isinstance(v, ast.Call) and isinstance(v.func, ast.Attribute) and v.func.attr == 'join' and len(v.args) == 1:
+            a = v.args[0]
+            if id(a) in cut_ids or (isinstance(a, ast.Name) and a.id in cut_vars) or (isinstance(a, ast.Name) and a.id == lines and lines in cut_vars):
+                continue
+            if isinstance(a, ast.BinOp) or (isinstance(a, (ast.ListComp, ast.GeneratorExp)) and id(a) not in cut_ids):
+                return False, f'lines are measured ... and a return path joins `{norm(a)[:70]}`: not every line is cut by the one common indentation on that path'
+        return False, f'return `{norm(v)[:60]}` is not read'
     return True, ''
 
 
